@@ -265,6 +265,30 @@ Proof.
   - intros l0. cases_on l0 i; [intros _; left; reflexivity|]. apply Hclosed.
 Qed.
 
+(* call() of a would-be waiter that unwinds before it returns (recorder panic): nothing is left *)
+Lemma P_call_unwound cs m ch fl ck i k :
+  P cs m ch fl ck -> cs i = Idle ->
+  P (upd cs i Done) m ch fl (upd ck i (Some k)).
+Proof.
+  intros [Hnd Hmap Hopen Hfl Hflnd Hwait Hlead Hidle Hsent Hclosed] Hi.
+  assert (Hchi : ch i = NoChan) by (apply Hidle; exact Hi).
+  constructor.
+  - exact Hnd.
+  - intros k0 l0. rewrite Hmap. cases_on l0 i; [|tauto]. split; congruence.
+  - intros l0. rewrite Hopen. cases_on l0 i; [|tauto]. split; intros [k0 H]; congruence.
+  - intros j. rewrite Hfl. cases_on j i; [|tauto]. split; intros [k0 H]; congruence.
+  - exact Hflnd.
+  - intros j l0. cases_on j i; [discriminate|]. intros H.
+    destruct (Hwait j l0 H) as (H1 & H2 & H3).
+    assert (l0 <> i) by (intros ->; congruence).
+    rewrite !upd_other by assumption. auto.
+  - intros j k0. cases_on j i; [discriminate|]. apply Hlead.
+  - intros j. cases_on j i; [discriminate|]. apply Hidle.
+  - intros l0 o H. destruct (Hsent l0 o H) as [H1 H2]. split; [exact H1|].
+    cases_on l0 i; [congruence|exact H2].
+  - intros l0 H. cases_on l0 i; [congruence|]. apply Hclosed. exact H.
+Qed.
+
 Lemma lookup_leader s k l : Inv s -> (lookup k (reqs s) = Some l <-> cs s l = Leading k).
 Proof.
   intros H. rewrite <- (p_map _ _ _ _ _ H). split.
@@ -285,7 +309,7 @@ Arguments wake_waiters : simpl never.
 
 Lemma inv_step s e : Inv s -> Inv (step_st s e).
 Proof.
-  intros H. unfold step_st. destruct e as [i k|i|i|i o|i k|i]; cbn [step fst].
+  intros H. unfold step_st. destruct e as [i k|i|i|i o|i k|i|i k|d]; cbn [step fst].
   - unfold call. destruct (cs s i) eqn:Ei; try exact H.
     destruct (lookup k (reqs s)) as [l|] eqn:El; unfold Inv; cbn.
     + apply P_waiter; [exact H|exact Ei|]. apply lookup_leader; assumption.
@@ -311,6 +335,11 @@ Proof.
     + unfold Inv; cbn. rewrite remove_key_head, (remove_key_notin _ _ El).
       apply P_call_panic; [exact H|exact Ei].
   - exact H.
+  - unfold call_panic_rec. destruct (cs s i) eqn:Ei; try exact H.
+    destruct (lookup k (reqs s)) as [l|] eqn:El; cbn [fst]; unfold Inv; cbn.
+    + apply P_call_unwound; [exact H|exact Ei].
+    + rewrite remove_key_head, (remove_key_notin _ _ El). apply P_call_panic; [exact H|exact Ei].
+  - exact H.
 Qed.
 
 Lemma inv_run_b b evs : Inv (run_b b evs).
@@ -324,7 +353,10 @@ Proof. unfold run_b. apply fold_left_app. Qed.
 
 (* ---------- what an event can touch ---------- *)
 Definition subject (e : ev) : nat :=
-  match e with Call i _ | Poll i | Drop i | Complete i _ | CallPanic i _ | Arm i => i end.
+  match e with
+  | Call i _ | Poll i | Drop i | Complete i _ | CallPanic i _ | Arm i | CallPanicRec i _ => i
+  | Advance _ => 0%nat
+  end.
 
 Lemma close_key_cs s k m : cs (close_key s k m) = cs s.
 Proof. unfold close_key. destruct (lookup k (reqs s)); reflexivity. Qed.
@@ -332,7 +364,7 @@ Proof. unfold close_key. destruct (lookup k (reqs s)); reflexivity. Qed.
 Lemma cs_other s e j : subject e <> j -> cs (step_st s e) j = cs s j.
 Proof.
   intros Hne. assert (Hj : j <> subject e) by congruence. clear Hne.
-  unfold step_st. destruct e as [i k|i|i|i o|i k|i]; cbn [step fst subject] in *.
+  unfold step_st. destruct e as [i k|i|i|i o|i k|i|i k|d]; cbn [step fst subject] in *.
   - unfold call. destruct (cs s i); try reflexivity.
     destruct (lookup k (reqs s)); cbn; apply upd_other; assumption.
   - unfold poll. cbn. destruct (cs s i) as [|k|l| |]; cbn [fst]; try reflexivity.
@@ -349,11 +381,14 @@ Proof.
       destruct (lookup k (reqs s)); cbn; apply upd_other; assumption.
     + cbn. apply upd_other; assumption.
   - reflexivity.
+  - unfold call_panic_rec. destruct (cs s i); try reflexivity.
+    destruct (lookup k (reqs s)); cbn; apply upd_other; assumption.
+  - reflexivity.
 Qed.
 
 Lemma busy_step s e : busy (step_st s e) = busy s.
 Proof.
-  unfold step_st. destruct e as [i k|i|i|i o|i k|i]; cbn [step fst].
+  unfold step_st. destruct e as [i k|i|i|i o|i k|i|i k|d]; cbn [step fst].
   - unfold call. destruct (cs s i); try reflexivity. destruct (lookup k (reqs s)); reflexivity.
   - unfold poll. cbn. destruct (cs s i) as [|k|l| |]; cbn [fst]; try reflexivity.
     + destruct (gate s i) as [[]|]; try destruct (bomb s i); cbn [fst busy]; try reflexivity;
@@ -365,6 +400,8 @@ Proof.
   - unfold call_panic. destruct (cs s i); try reflexivity.
     destruct (lookup k (reqs s)); cbn [fst]; [|reflexivity].
     unfold call. destruct (cs s i); try reflexivity. destruct (lookup k (reqs s)); reflexivity.
+  - reflexivity.
+  - unfold call_panic_rec. destruct (cs s i); try reflexivity. destruct (lookup k (reqs s)); reflexivity.
   - reflexivity.
 Qed.
 
@@ -506,9 +543,10 @@ Qed.
 (* only l's own call/poll/drop touch the channel created by l *)
 Lemma chan_frame s e l :
   Inv s -> e <> Poll l -> e <> Drop l -> (forall k, e <> Call l k) -> (forall k, e <> CallPanic l k) ->
+  (forall k, e <> CallPanicRec l k) ->
   chan (step_st s e) l = chan s l.
 Proof.
-  intros H Hp Hd Hc Hcp. unfold step_st. destruct e as [i k|i|i|i o|i k|i]; cbn [step fst].
+  intros H Hp Hd Hc Hcp Hcr. unfold step_st. destruct e as [i k|i|i|i o|i k|i|i k|d]; cbn [step fst].
   - unfold call. destruct (cs s i) eqn:Ei; try reflexivity.
     destruct (lookup k (reqs s)); cbn; [reflexivity|].
     apply upd_other. intros ->. exact (Hc k eq_refl).
@@ -528,6 +566,10 @@ Proof.
     + unfold call. rewrite Ei, El. reflexivity.
     + cbn. apply upd_other. intros ->. exact (Hcp k eq_refl).
   - reflexivity.
+  - unfold call_panic_rec. destruct (cs s i) eqn:Ei; try reflexivity.
+    destruct (lookup k (reqs s)) eqn:El; cbn [fst]; [reflexivity|].
+    cbn. apply upd_other. intros ->. exact (Hcr k eq_refl).
+  - reflexivity.
 Qed.
 
 (* a caller that is Done/Dropped is changed by nothing, and neither is its channel *)
@@ -537,12 +579,14 @@ Lemma finished_frozen s e l :
 Proof.
   intros H Hl.
   destruct (Nat.eq_dec (subject e) l) as [He|He].
-  - unfold step_st. destruct e as [i k|i|i|i o|i k|i]; cbn [subject] in He; subst i; cbn [step fst].
+  - unfold step_st. destruct e as [i k|i|i|i o|i k|i|i k|d]; cbn [subject] in He; try subst i; cbn [step fst].
     + unfold call. destruct Hl as [Hl|Hl]; rewrite Hl; auto.
     + unfold poll. cbn. destruct Hl as [Hl|Hl]; rewrite Hl; auto.
     + unfold drop. cbn. destruct Hl as [Hl|Hl]; rewrite Hl; auto.
     + unfold complete. destruct (gate s l); auto.
     + unfold call_panic. destruct Hl as [Hl|Hl]; rewrite Hl; auto.
+    + auto.
+    + unfold call_panic_rec. destruct Hl as [Hl|Hl]; rewrite Hl; auto.
     + auto.
   - split; [|apply cs_other; exact He].
     apply chan_frame; try exact H; intros; intros ->; apply He; reflexivity.
@@ -565,12 +609,13 @@ Lemma waiter_frame s e i l :
 Proof.
   intros Hi Hp Hd.
   destruct (Nat.eq_dec (subject e) i) as [He|He]; [|rewrite cs_other by exact He; exact Hi].
-  unfold step_st. destruct e as [j k|j|j|j o|j k|j]; cbn [subject] in He; subst j; cbn [step fst];
+  unfold step_st. destruct e as [j k|j|j|j o|j k|j|j k|d]; cbn [subject] in He; try subst j; cbn [step fst];
     try congruence.
   - unfold call. rewrite Hi. exact Hi.
   - unfold complete. destruct (gate s i); exact Hi.
   - unfold call_panic. rewrite Hi. exact Hi.
   - exact Hi.
+  - unfold call_panic_rec. rewrite Hi. exact Hi.
 Qed.
 
 Lemma waiter_run evs s i l :
@@ -586,7 +631,7 @@ Qed.
 (* an armed Clone panic comes only from Arm *)
 Lemma bomb_frame s e l : e <> Arm l -> bomb s l = false -> bomb (step_st s e) l = false.
 Proof.
-  intros Ha Hb. unfold step_st. destruct e as [i k|i|i|i o|i k|i]; cbn [step fst].
+  intros Ha Hb. unfold step_st. destruct e as [i k|i|i|i o|i k|i|i k|d]; cbn [step fst].
   - unfold call. destruct (cs s i); try exact Hb. destruct (lookup k (reqs s)); exact Hb.
   - unfold poll. cbn. destruct (cs s i) as [|k|l'| |]; cbn [fst]; try exact Hb.
     + destruct (gate s i) as [[]|]; try destruct (bomb s i) eqn:Eb; cbn [fst bomb]; try exact Hb;
@@ -601,6 +646,8 @@ Proof.
     destruct (lookup k (reqs s)); cbn [fst]; [|exact Hb].
     unfold call. destruct (cs s i); try exact Hb. destruct (lookup k (reqs s)); exact Hb.
   - cbn. rewrite upd_other; [exact Hb|]. intros ->. apply Ha. reflexivity.
+  - unfold call_panic_rec. destruct (cs s i); try exact Hb. destruct (lookup k (reqs s)); exact Hb.
+  - exact Hb.
 Qed.
 
 Lemma bomb_run evs s l :
@@ -614,7 +661,7 @@ Qed.
 
 Lemma ev_eq_poll_drop e i : {e = Poll i} + {e = Drop i} + {e <> Poll i /\ e <> Drop i}.
 Proof.
-  destruct e as [j k|j|j|j o|j k|j]; try (right; split; discriminate).
+  destruct e as [j k|j|j|j o|j k|j|j k|d]; try (right; split; discriminate).
   - destruct (Nat.eq_dec j i) as [->|Hn]; [left; left; reflexivity|right; split; congruence].
   - destruct (Nat.eq_dec j i) as [->|Hn]; [left; right; reflexivity|right; split; congruence].
 Qed.
@@ -623,12 +670,14 @@ Lemma cs_finished s e l : (cs s l = Done \/ cs s l = Dropped) -> cs (step_st s e
 Proof.
   intros Hl.
   destruct (Nat.eq_dec (subject e) l) as [He|He]; [|apply cs_other; exact He].
-  unfold step_st. destruct e as [i k|i|i|i o|i k|i]; cbn [subject] in He; subst i; cbn [step fst].
+  unfold step_st. destruct e as [i k|i|i|i o|i k|i|i k|d]; cbn [subject] in He; try subst i; cbn [step fst].
   - unfold call. destruct Hl as [Hl|Hl]; rewrite Hl; auto.
   - unfold poll. cbn. destruct Hl as [Hl|Hl]; rewrite Hl; auto.
   - unfold drop. cbn. destruct Hl as [Hl|Hl]; rewrite Hl; auto.
   - unfold complete. destruct (gate s l); auto.
   - unfold call_panic. destruct Hl as [Hl|Hl]; rewrite Hl; auto.
+  - auto.
+  - unfold call_panic_rec. destruct Hl as [Hl|Hl]; rewrite Hl; auto.
   - auto.
 Qed.
 
@@ -808,7 +857,8 @@ Lemma no_cross_key b evs i l :
      val (snd (step s (Poll i))) = Z.of_nat l /\
      exists o, chan s l = Sent o /\ r (snd (step s (Poll i))) = code o) /\
   (forall e l0, e <> Poll l0 -> e <> Drop l0 -> (forall k, e <> Call l0 k) ->
-     (forall k, e <> CallPanic l0 k) -> chan (step_st s e) l0 = chan s l0).
+     (forall k, e <> CallPanic l0 k) -> (forall k, e <> CallPanicRec l0 k) ->
+     chan (step_st s e) l0 = chan s l0).
 Proof.
   intros s Hi. pose proof (inv_run_b b evs) as H. fold s in H.
   destruct (p_wait _ _ _ _ _ H i l Hi) as (_ & Hk & Hex).
@@ -875,11 +925,13 @@ Qed.
 (* RecvError (a lagging receiver) never happens: no step reports it *)
 Lemma no_recv_error s e : r (snd (step s e)) <> 4.
 Proof.
-  destruct e as [i k|i|i|i o|i k|i]; cbn [step snd]; try (cbn; discriminate).
+  destruct e as [i k|i|i|i o|i k|i|i k|d]; cbn [step snd]; try (cbn; discriminate).
   - unfold poll. cbn. destruct (cs s i) as [|k|l| |]; cbn; try discriminate.
     + destruct (gate s i) as [[]|]; try destruct (bomb s i); cbn; discriminate.
     + destruct (chan s l) as [| |[]|]; try destruct (bomb s l); cbn; discriminate.
   - unfold call_panic. destruct (cs s i); cbn; try discriminate.
+    destruct (lookup k (reqs s)); cbn; discriminate.
+  - unfold call_panic_rec. destruct (cs s i); cbn; try discriminate.
     destruct (lookup k (reqs s)); cbn; discriminate.
 Qed.
 
@@ -929,6 +981,66 @@ Proof.
       * intros j Hj. rewrite !upd_other by exact Hj. auto.
       * intros j Hj. destruct (call_leader _ j k H1 Hj Hfree) as (Ha & Hb & _). auto.
 Qed.
+
+(* ---------- the metrics recorder / tracing subscriber panics inside call() ---------- *)
+Lemma recorder_panic_frees_key b evs i k :
+  let s := run_b b evs in
+  cs s i = Idle ->
+  let s1 := step_st s (CallPanicRec i k) in
+  r (snd (step s (CallPanicRec i k))) = 5 /\ cs s1 i = Done /\
+  inflight s1 = inflight s /\ reqs s1 = reqs s /\
+  (forall j, j <> i -> cs s1 j = cs s j /\ chan s1 j = chan s j) /\
+  (forall evs2, ~ In i (inflight (fold_left step_st evs2 s1))) /\
+  ((forall l, cs s l <> Leading k) ->
+     (forall l, cs s1 l <> Leading k) /\
+     forall j, cs s1 j = Idle ->
+       cs (step_st s1 (Call j k)) j = Leading k /\
+       inflight (step_st s1 (Call j k)) = inflight s1 ++ [j]).
+Proof.
+  intros s Hi s1. pose proof (inv_run_b b evs) as H. fold s in H.
+  assert (H1 : Inv s1) by (apply inv_step; exact H).
+  assert (Hd : cs s1 i = Done).
+  { unfold s1, step_st. cbn [step]. unfold call_panic_rec. rewrite Hi.
+    destruct (lookup k (reqs s)); cbn; apply upd_same. }
+  assert (Hnl : forall evs2, ~ In i (inflight (fold_left step_st evs2 s1))).
+  { intros evs2. apply never_leads_run; [exact H1|rewrite Hd; discriminate|rewrite Hd; discriminate]. }
+  assert (Hoth : forall j, j <> i -> cs s1 j = cs s j).
+  { intros j Hj. apply cs_other. cbn. congruence. }
+  assert (Hch : forall j, j <> i -> chan s1 j = chan s j).
+  { intros j Hj. apply chan_frame; try exact H; try discriminate; intros k0 E; injection E; congruence. }
+  assert (Hrest : r (snd (step s (CallPanicRec i k))) = 5 /\ inflight s1 = inflight s /\ reqs s1 = reqs s).
+  { unfold s1, step_st. cbn [step]. unfold call_panic_rec. rewrite Hi.
+    destruct (lookup k (reqs s)) eqn:El; cbn; [auto|].
+    rewrite remove_key_head, (remove_key_notin _ _ El). auto. }
+  destruct Hrest as (Hr & Hfl & Hrq).
+  repeat split; try assumption; try (apply Hoth; assumption); try (apply Hch; assumption).
+  - intros l. destruct (Nat.eq_dec l i) as [->|Hn]; [rewrite Hd; discriminate|].
+    rewrite Hoth by exact Hn. apply H0.
+  - apply call_leader; [exact H1|assumption|].
+    intros l. destruct (Nat.eq_dec l i) as [->|Hn]; [rewrite Hd; discriminate|].
+    rewrite Hoth by exact Hn. apply H0.
+  - apply call_leader; [exact H1|assumption|].
+    intros l. destruct (Nat.eq_dec l i) as [->|Hn]; [rewrite Hd; discriminate|].
+    rewrite Hoth by exact Hn. apply H0.
+Qed.
+
+(* ---------- time ---------- *)
+Definition is_advance (e : ev) : bool := match e with Advance _ => true | _ => false end.
+
+Lemma advance_noop s d : step s (Advance d) = (s, no_obs).
+Proof. reflexivity. Qed.
+
+Lemma drop_advances evs : forall s,
+  fold_left step_st (filter (fun e => negb (is_advance e)) evs) s = fold_left step_st evs s.
+Proof.
+  induction evs as [|e t IH]; intros s; [reflexivity|].
+  destruct e; cbn [filter is_advance negb fold_left]; apply IH.
+Qed.
+
+Lemma time_is_irrelevant :
+  (forall s d, step s (Advance d) = (s, no_obs)) /\
+  (forall b evs, run_b b (filter (fun e => negb (is_advance e)) evs) = run_b b evs).
+Proof. split; [reflexivity|]. intros b evs. apply drop_advances. Qed.
 
 (* ---------- cancelling a waiter concerns nobody else ---------- *)
 Lemma waiter_cancel_is_local b evs i l :
@@ -1035,7 +1147,7 @@ Qed.
 
 Lemma Q_step s e : Inv s -> Q s -> Q (step_st s e).
 Proof.
-  intros H HQ. unfold step_st. destruct e as [i k|i|i|i o|i k|i]; cbn [step fst].
+  intros H HQ. unfold step_st. destruct e as [i k|i|i|i o|i k|i|i k|d]; cbn [step fst].
   - unfold call. destruct (cs s i) eqn:Ei; try exact HQ.
     destruct (lookup k (reqs s)); apply Q_enter; auto; discriminate.
   - unfold poll. cbn. destruct (cs s i) as [|k|l| |] eqn:Ei; cbn [fst].
@@ -1092,6 +1204,9 @@ Proof.
     + unfold call. rewrite Ei, El. apply Q_enter; auto; discriminate.
     + apply Q_enter; auto; discriminate.
   - destruct HQ as [Qi Qw Ql]. constructor; cbn; assumption.
+  - unfold call_panic_rec. destruct (cs s i) eqn:Ei; try exact HQ.
+    destruct (lookup k (reqs s)) eqn:El; cbn [fst]; apply Q_enter; auto; discriminate.
+  - exact HQ.
 Qed.
 
 Lemma Q_run_b b evs : Inv (run_b b evs) /\ Q (run_b b evs).
@@ -1131,7 +1246,7 @@ Proof.
   assert (Hi1 : cs (step_st s e) i = Waiting l).
   { rewrite cs_other; [exact Hi|]. congruence. }
   assert (Hp1 : polled (step_st s e) i = true).
-  { unfold step_st. destruct e as [j k0|j|j|j o|j k0|j]; cbn [subject] in Hsub; subst j; cbn [step fst].
+  { unfold step_st. destruct e as [j k0|j|j|j o|j k0|j|j k0|d]; cbn [subject] in Hsub; try subst j; cbn [step fst].
     - unfold call. rewrite Hl. exact Hp.
     - unfold poll. cbn. rewrite Hl. destruct (gate s l) as [[]|]; try destruct (bomb s l); cbn [fst polled];
         first [rewrite upd_other by exact Hil; exact Hp
@@ -1139,6 +1254,8 @@ Proof.
     - unfold drop. cbn. rewrite Hl. cbn [polled]. unfold close_key; cbn; destruct (lookup k (reqs s)); cbn; exact Hp.
     - unfold complete. destruct (gate s l); exact Hp.
     - unfold call_panic. rewrite Hl. exact Hp.
+    - exact Hp.
+    - unfold call_panic_rec. rewrite Hl. exact Hp.
     - exact Hp. }
   split; [|exact Hi1].
   assert (Hs : step_st s e = run_b b (evs ++ [e])) by (rewrite run_b_app; reflexivity).
@@ -1246,9 +1363,25 @@ Example ex_wake_disciplines :
   snd (step (run_b false (evs ++ [Complete 0 OOk; Poll 0])) (Poll 1)) = {| r := 1; val := 0 |}.
 Proof. vm_compute. repeat split; reflexivity. Qed.
 
+(* the recorder panics in call(): under a would-be leader (key 4 free: hypotheses of recorder_panic_frees_key, last
+   part) and under a would-be waiter (3, while 1 leads); days pass in between and change nothing *)
+Example ex_recorder_panic :
+  let s := run [Call 9 5] in
+  cs s 0%nat = Idle /\ (forall l, l = 9%nat -> cs s l <> Leading 4) /\
+  snd (step s (CallPanicRec 0 4)) = {| r := 5; val := -1 |} /\
+  let s1 := run [Call 9 5; CallPanicRec 0 4; Call 1 4; Call 2 4; Poll 2; Advance 86400000; CallPanicRec 3 4;
+                 Advance 30000; Complete 1 OOk; Poll 1] in
+  inflight s1 = [9%nat] /\ cs s1 2%nat = Waiting 1 /\ cs s1 3%nat = Done /\
+  snd (step s1 (Poll 2)) = {| r := 1; val := 1 |} /\ snd (step s1 (Poll 3)) = {| r := 9; val := -1 |} /\
+  snd (step (run [Call 9 5; CallPanicRec 0 4; Call 1 4; Call 2 4; Poll 2; Advance 86400000]) (Poll 2)) =
+    {| r := 0; val := -1 |}.
+Proof. vm_compute. repeat split; try reflexivity. intros l ->. discriminate. Qed.
+
 Example ex_script :
   run_script [103; 7; 0; 4; 5; 1; 4; 4; 1; 1; 1; 1; 0] =
     [5; -1; 0; 0; 0;  -1; -1; 0; 2; 0;  -1; -1; 0; 2; 0;  2; 1; 0; 0; 0] /\
   run_script [2; 5; 0; 0; 6; 0; 0; 4; 0; 1; 1; 0; 0; 5; 1; 0] =
-    [-1; -1; 0; 1; 0;  -1; -1; 0; 1; 1;  -1; -1; 0; 1; 1;  5; -1; 0; 0; 0;  -1; -1; 0; 2; 0].
-Proof. vm_compute. split; reflexivity. Qed.
+    [-1; -1; 0; 1; 0;  -1; -1; 0; 1; 1;  -1; -1; 0; 1; 1;  5; -1; 0; 0; 0;  -1; -1; 0; 2; 0] /\
+  run_script [2; 8; 0; 3; 5; 1; 3; 3; 0; 60000; 1; 1; 0] =
+    [5; -1; 0; 0; 0;  -1; -1; 0; 2; 0;  -1; -1; 0; 2; 0;  0; -1; 0; 2; 0].
+Proof. vm_compute. repeat split; reflexivity. Qed.
